@@ -202,15 +202,15 @@ def plain_exec_(pp, torch, c, history, res):
     else:
         _, buf, vf = relayout(torch, x, layout)
     buf = ag_buffer(torch, buf, ag)
-    xin = vf(buf)
-    xd, bufd = xin.detach(), buf.detach()      # the same memory, for the writes of the history and the comparisons
-    lay = LAYOUTS[layout]
-    x0 = xd.clone()
-    buf0 = bufd.clone()
+    xg = vf(buf)                               # the input in its autograd state
+    xin, buf = xg.detach(), buf.detach()       # the same memory, for the writes of the history and the comparisons
+    lay = LAYOUTS[layout] + ag_text(ag)
+    x0 = xin.clone()
+    buf0 = buf.clone()
     fn = getattr(pp, variant)
     call = '%s(x, %d, ops)%s' % (variant, dim, ag_text(ag))
     try:
-        yg = fn(xin, dim, ops)
+        yg = fn(xg, dim, ops)
     except Exception as e:
         res['fail'] = (KEY_FOLD, '%s raises %s: %s' % (call, type(e).__name__, str(e)[:200]))
         return res
@@ -218,8 +218,6 @@ def plain_exec_(pp, torch, c, history, res):
         res['fail'] = (KEY_FOLD, '%s returns a %s' % (call, type(yg).__name__))
         return res
     y = yg.detach()
-    xin = xd
-    buf = bufd
     try:
         devs = deviations(y, base, pdim, left)
     except ShapeError as e:
@@ -243,7 +241,6 @@ def plain_exec_(pp, torch, c, history, res):
         return res
     # ---- histories on the two objects
     ysave = y.clone()
-    xin = vf(ag_buffer(torch, buf0.clone(), ag)) if False else xin
     try:
         yg.copy_(ysave)                   # a fresh tensor can be written to
     except RuntimeError as e:
@@ -252,7 +249,7 @@ def plain_exec_(pp, torch, c, history, res):
     # (a) the same input, addressed by the other index of the same dimension
     odim = pdim - r - 1 if dim >= 0 else pdim
     try:
-        y2 = fn(xin, odim, ops)
+        y2 = fn(xg, odim, ops).detach()
         if tuple(y2.shape) != tuple(ysave.shape) or not torch.equal(y2, ysave):
             res['fail'] = (KEY_FOLD, 'dim=%d and dim=%d name the same dimension of a rank-%d tensor but %s gives different results'
                            % (dim, odim, r + 1, variant))
@@ -283,7 +280,7 @@ def plain_exec_(pp, torch, c, history, res):
         fresh = ysave.clone()
         try:
             pp.cumops_(fresh, d2, ops)
-            pp.cumops_(y, d2, ops)
+            pp.cumops_(yg, d2, ops)
         except Exception as e:
             res['fail'] = (KEY_FOLD, 'y = %s; cumops_(y, %d, ops) raises %s: %s' % (call, d2, type(e).__name__, str(e)[:160]))
             return res
@@ -307,7 +304,7 @@ def plain_exec_(pp, torch, c, history, res):
         base3 = base - (L - 1) if left else base + (L - 1)
         what = '%s; x.copy_(x.flip(%d)); %s(x, %d, ops of the %s order)' % (call, pdim, variant, dim, oorder)
         try:
-            y3 = fn(xin, dim, seg_ops(torch, oorder))
+            y3 = fn(xg, dim, seg_ops(torch, oorder)).detach()
             bad = [(b, d[:3]) for b, d in deviations(y3, base3, pdim, not left) if d]
         except Exception as e:
             res['fail'] = (KEY_HIST, '%s raises %s: %s' % (what, type(e).__name__, str(e)[:160]))
@@ -466,10 +463,12 @@ def first_diff(got, exp, bshape):
 def lie_exec(pp, torch, c):
     res = dict(calls=[], fail=None)
     try:
-        return lie_exec_(pp, torch, c, res)
+        with ag_context(torch, c.get('ag', 'off')):
+            return lie_exec_(pp, torch, c, res)
     except Exception as e:
-        res['fail'] = res['fail'] or (KEY_HIST, 'a step of the history around %s%s.%s(dim=%s) raises %s: %s'
-                                      % (c['ltype'], c.get('bshape'), c['fn'], c.get('dim', 0), type(e).__name__, str(e)[:200]))
+        res['fail'] = res['fail'] or (KEY_HIST, 'a step of the history around %s%s.%s(dim=%s)%s raises %s: %s'
+                                      % (c['ltype'], c.get('bshape'), c['fn'], c.get('dim', 0), ag_text(c.get('ag', 'off')),
+                                         type(e).__name__, str(e)[:200]))
         return res
 
 
@@ -485,14 +484,21 @@ def lie_exec_(pp, torch, c, res):
     layout = c.get('layout', 'C')
     mulop = c.get('mulop', '@')
     inplace = fn.endswith('_')
-    lay = LAYOUTS[layout]
+    ag = c.get('ag', 'off')
+    lay = LAYOUTS[layout] + ag_text(ag)
     rows0 = [[Fraction(v) for v in r] for r in items]
     t = torch.tensor(items, dtype=torch.float64).reshape(bshape + (w,))
-    view, buf, vf = relayout(torch, t, layout)
-    x = pp.LieTensor(view, ltype=getattr(pp, lt + '_type'))
-    x0 = x.tensor().clone()
+    _, buf, vf = relayout(torch, t, layout)
+    if ag == 'leaf' and layout == 'C':
+        x = pp.LieTensor(buf, ltype=getattr(pp, lt + '_type')).requires_grad_(True)      # the LieTensor itself is the leaf
+    else:
+        buf = ag_buffer(torch, buf, ag)
+        x = pp.LieTensor(vf(buf), ltype=getattr(pp, lt + '_type'))
+    buf = buf.detach()
+    raw = lambda z: z.tensor().detach()       # the memory of a LieTensor, for the writes of the history and the comparisons
+    x0 = raw(x).clone()
     buf0 = buf.clone()
-    call = '%s%s.%s [%s form](dim=%d, left=%s)' % (lt, list(bshape), fn, form, dim, left)
+    call = '%s%s.%s [%s form](dim=%d, left=%s)%s' % (lt, list(bshape), fn, form, dim, left, ag_text(ag))
 
     def judged(y, rows_in, kk, lf, what):
         """records the call for the tie and compares with the ordered products"""
@@ -500,7 +506,7 @@ def lie_exec_(pp, torch, c, res):
             res['calls'].append((kk, lf, rows_in, 'shape'))
             return (KEY_FOLD, '%s returns %s of shape %s, expected a %s LieTensor of shape %s'
                     % (what, getattr(getattr(y, 'ltype', None), '__class__', type(y)).__name__, list(getattr(y, 'shape', [])), lt, list(bshape + (w,))))
-        got = frows(y.tensor(), w)
+        got = frows(raw(y), w)
         res['calls'].append((kk, lf, rows_in, got))
         d = first_diff(got, fold_rows(lt, rows_in, bshape, kk, lf), bshape)
         return (KEY_FOLD, '%s is not the ordered product along batch dimension %d: %s' % (what, kk, d)) if d else None
@@ -516,22 +522,22 @@ def lie_exec_(pp, torch, c, res):
         return res
     rows1 = res['calls'][0][3]
     if inplace:
-        if not torch.equal(x.tensor(), y.tensor()):
+        if not torch.equal(raw(x), raw(y)):
             res['fail'] = (KEY_INPL, '%s did not overwrite its %s input with the result' % (call, lay))
             return res
         if not torch.equal(outside(buf, vf), outside(buf0, vf)):
             res['fail'] = (KEY_MUT, '%s on a view (%s) wrote outside the view' % (call, lay))
             return res
     else:
-        if not torch.equal(x.tensor(), x0) or not torch.equal(buf, buf0):
+        if not torch.equal(raw(x), x0) or not torch.equal(buf, buf0):
             res['fail'] = (KEY_MUT, '%s changed its %s input' % (call, lay))
             return res
-        ysave = y.tensor().clone()
-        x.tensor().add_(3)
-        if not torch.equal(y.tensor(), ysave):
+        ysave = raw(y).clone()
+        raw(x).add_(3)
+        if not torch.equal(raw(y), ysave):
             res['fail'] = (KEY_ALIAS, 'y = %s; writing to x afterwards changed y: the result shares memory with the input' % call)
             return res
-        x.tensor().copy_(x0)
+        raw(x).copy_(x0)
     # ---- the result object is scanned in place (another dimension when there is one)
     if c.get('then'):
         fn2, dim2, left2 = c['then']
@@ -546,10 +552,10 @@ def lie_exec_(pp, torch, c, res):
         res['fail'] = judged(y2, rows1, k2, left2, what)
         if res['fail']:
             return res
-        if not torch.equal(y.tensor(), y2.tensor()):
+        if not torch.equal(raw(y), raw(y2)):
             res['fail'] = (KEY_INPL, '%s did not overwrite y with the result' % what)
             return res
-        if not inplace and not torch.equal(x.tensor(), x0):
+        if not inplace and not torch.equal(raw(x), x0):
             res['fail'] = (KEY_ALIAS, '%s overwrote x: the result of the out-of-place call is (a view of) its input' % what)
             return res
         if not torch.equal(outside(buf, vf), outside(buf0, vf)):
@@ -557,12 +563,12 @@ def lie_exec_(pp, torch, c, res):
             return res
     if inplace:
         return res
-    y.tensor().fill_(0.25)
-    if not torch.equal(x.tensor(), x0):
+    raw(y).fill_(0.25)
+    if not torch.equal(raw(x), x0):
         res['fail'] = (KEY_ALIAS, 'y = %s; writing to y changed x: the result shares memory with the input' % call)
         return res
     # ---- the input is modified in place (items reversed along the dimension) and the call repeated on the object
-    x.tensor().copy_(x0.flip(k))
+    raw(x).copy_(x0.flip(k))
     rows3 = frows(x0.flip(k), w)
     what = '%s; x.copy_(x.flip(%d)); the same call again' % (call, k)
     try:
@@ -591,14 +597,15 @@ def lie_cases(ctx, pp, torch, direct):
     for n, (lt, form, fn, left) in enumerate(itertools.product(LTS, ['function', 'method', 'method-positional'],
                                                                 ['cumprod', 'cummul', 'cumprod_', 'cummul_'], [True, False])):
         L = [2, 3, 5, 6, 7, 11][n % 6]
-        plan.append((lt, form, fn, left, (L,), 0 if (n // 6) % 2 == 0 else -2, 'C'))
+        plan.append((lt, form, fn, left, (L,), 0 if (n // 6) % 2 == 0 else -2, 'C', (lambda a: a[(n // 2 + n // 8) % len(a)])(AG_IN if fn.endswith('_') else AG_OUT)))
     # (b) every (function incl. cumops, call form, batch rank 1..3, sign of the dim index); group type, order, shape
     #     (with extents 1), batch dimension and memory layout drawn per case
     SHR = {1: [(1,), (2,), (4,), (6,)], 2: [(3, 4), (1, 6), (4, 1), (5, 2), (2, 2)], 3: [(2, 3, 2), (2, 1, 3), (1, 1, 4), (3, 2, 2), (1, 3, 1)]}
     for fn, form, r, neg in itertools.product(LIE_FNS, LIE_FORMS, [1, 2, 3], [False, True]):
         bsh = rng.choice(SHR[r])
         k = rng.randrange(r)
-        plan.append((rng.choice(LTS), form, fn, rng.random() < 0.5, bsh, k - r - 1 if neg else k, rng.choice('CTSP')))
+        plan.append((rng.choice(LTS), form, fn, rng.random() < 0.5, bsh, k - r - 1 if neg else k, rng.choice('CTSP'),
+                     rng.choice(AG_IN if fn.endswith('_') else AG_OUT)))
     # (c) random
     for _ in range(ctx.scale(24, 600)):
         r = rng.choice([1, 1, 2, 3])
@@ -607,9 +614,15 @@ def lie_cases(ctx, pp, torch, direct):
         else:
             bsh = tuple(rng.choice([1, 2, 3, 4, 5]) for _ in range(r))
         k = rng.randrange(r)
-        plan.append((rng.choice(LTS), rng.choice(LIE_FORMS), rng.choice(LIE_FNS), rng.random() < 0.5, bsh,
-                     k if rng.random() < 0.5 else k - r - 1, rng.choice('CCTSP')))
-    for (lt, form, fn, left, bsh, dim, layout) in plan:
+        fn = rng.choice(LIE_FNS)
+        plan.append((rng.choice(LTS), rng.choice(LIE_FORMS), fn, rng.random() < 0.5, bsh,
+                     k if rng.random() < 0.5 else k - r - 1, rng.choice('CCTSP'), rng.choice(AG_IN if fn.endswith('_') else AG_OUT)))
+    # (d) every autograd state x every function x both orders on lengths around the powers of two (the scan's passes)
+    for n, (ag, fn, left) in enumerate(itertools.product(AG_OUT[1:], LIE_FNS, [True, False])):
+        if ag == 'leaf' and fn.endswith('_'):
+            continue
+        plan.append((LTS[n % 4], LIE_FORMS[n % len(LIE_FORMS)], fn, left, ([3, 4, 5, 7, 8, 9, 12, 16, 17][n % 9],), 0 if n % 3 else -2, 'C', ag))
+    for (lt, form, fn, left, bsh, dim, layout, ag) in plan:
         r = len(bsh)
         k = dim if dim >= 0 else dim + r + 1
         if form in ('default', 'method-default') and not fn.startswith('cumops'):
@@ -617,14 +630,17 @@ def lie_cases(ctx, pp, torch, direct):
         items = lie_rows(rng, lt, bsh, k)
         k2 = (k + 1 + rng.randrange(max(r - 1, 1))) % r      # another batch dimension when there is one
         then = [rng.choice(['cumprod_', 'cummul_', 'cumops_']), k2 if rng.random() < 0.5 else k2 - r - 1, rng.random() < 0.5]
+        if lt in ('RxSO3', 'Sim3') and k2 == k and bsh[k] > 8:
+            then = None      # a scan of the scan multiplies up to L(L+1)/2 scales: the translations leave the exact range of float64
         c = dict(kind='lie', ltype=lt, L=bsh[k], left=left, fn=fn, form=form, items=items, bshape=list(bsh), dim=dim,
-                 layout=layout, mulop=rng.choice('@*'), then=then)
+                 layout=layout, mulop=rng.choice('@*'), then=then, ag=ag)
         ex = lie_exec(pp, torch, c)
         if ex['fail']:
             direct.append((ex['fail'], c))
         ctx.case(('lie', lt, tuple(bsh), dim, left, fn, form, tuple(map(tuple, items))), nontrivial=bsh[k] >= 2, branch='lie-' + lt)
         ctx.count('lie-rank%d-%s-dim' % (r + 1, 'neg' if dim < 0 else 'pos'))
         ctx.count('lie-form-' + form)
+        ctx.count('lie-autograd-' + ag)
         meta.append(c)
         for ncall, (kk, lf, rin, rout) in enumerate(ex['calls']):
             if ncall and len(meta) % 3 and isinstance(rout, list):
@@ -667,6 +683,20 @@ def run(ctx):
             direct.append((ex['fail'], c))
         d = ex['devs'][0][1] if ex['devs'] is not None else None
         ctx.case(('plain1d', L), nontrivial=L >= 2, branch='plain-1d')
+        # the same length in every other autograd state (the index schedule must not depend on it): the short lengths and
+        # the neighbours of the powers of two in all of them, the others in one state in turn; out-of-place and in-place
+        allst = L <= 72 or any(abs(L - (1 << b)) <= 1 for b in range(6, 13))
+        for ag in (AG_OUT[1:] if allst else [AG_OUT[1 + L % 4]]):
+            for variant in ('cumops', 'cumops_'):
+                if ag == 'leaf' and variant == 'cumops_':
+                    continue
+                if variant == 'cumops_' and not allst and (L // 4) % 2:
+                    continue
+                c2 = dict(c, variant=variant, ag=ag, order='right' if (L + len(ag)) % 2 else 'left')
+                ex2 = plain_exec(pp, torch, c2, history=allst and L % 3 == 0)
+                ctx.case(('plain1d', L, variant, ag), nontrivial=L >= 2, branch='plain-1d-' + ag)
+                if ex2['fail']:
+                    direct.append((ex2['fail'], c2))     # judged by the oracle; the tie of these states is in (2) and (3)
         if d != []:
             impl_fail[L] = d
     ctx.samples.append(dict(kind='plain-1d', L=37, input='[[0,0],[1,1],...,[36,36]]', op='segment monoid',
@@ -706,7 +736,9 @@ def run(ctx):
                     layout = 'CTSPE'[(ns + dim + (variant == 'cumops')) % 5]
                 else:
                     layout = rng.choice(['C', 'C', 'T', 'S', 'P', 'E'])
-                c = dict(kind='plain', variant=variant, shape=list(sh), dim=usedim, order=order, L=sh[dim], layout=layout)
+                ags = AG_IN if variant == 'cumops_' else AG_OUT
+                ag = ags[(ns + 2 * dim) % len(ags)] if ns < len(directed) else rng.choice(ags)
+                c = dict(kind='plain', variant=variant, shape=list(sh), dim=usedim, order=order, L=sh[dim], layout=layout, ag=ag)
                 if layout == 'E':
                     if variant == 'cumops' and len(sh) >= 2:
                         c['edim'] = (dim + 1 + rng.randrange(len(sh) - 1)) % len(sh)
@@ -717,6 +749,7 @@ def run(ctx):
                     direct.append((ex['fail'], c))
                 ctx.case((variant, sh, dim, order), nontrivial=sh[dim] >= 2, branch='%s-rank%d' % (variant, len(sh)))
                 ctx.count('plain-layout-' + c['layout'])
+                ctx.count('plain-autograd-' + ag)
                 meta.append(c)
                 cases.append((len(meta) - 1, sh[dim], ex['devs'], ex['same_in'], ex['same_res'], variant == 'cumops_', order == 'left'))
     body = 'From PV Require Import Model.Cumops.\nFrom Coq Require Import List ZArith Bool. Import ListNotations.\n'
@@ -810,7 +843,8 @@ def mat_cases(ctx, pp, torch, direct):
             for k in range(len(bsh)):
                 dim = k if (n + k + rep) % 2 else k - len(bsh) - 2
                 c = dict(kind='plainmat', fn=fn, left=left, bshape=list(bsh), dim=dim, L=bsh[k],
-                         gens=[rng.randrange(2) for _ in range(int(torch.tensor(bsh).prod()))], layout='CSP'[(n + k) % 3])
+                         gens=[rng.randrange(2) for _ in range(int(torch.tensor(bsh).prod()))], layout='CSP'[(n + k) % 3],
+                         ag=(AG_IN if fn.endswith('_') else AG_OUT)[(n + rep // 2 + k) % (4 if fn.endswith('_') else 5)])
                 f = mat_exec(pp, torch, c)
                 if f:
                     direct.append((f, c))
@@ -819,10 +853,11 @@ def mat_cases(ctx, pp, torch, direct):
 
 def mat_exec(pp, torch, c):
     try:
-        return mat_exec_(pp, torch, c)
+        with ag_context(torch, c.get('ag', 'off')):
+            return mat_exec_(pp, torch, c)
     except Exception as e:
-        return (KEY_HIST, 'a step of the history around pp.%s(tensor%s of 2x2 matrices, dim=%d) raises %s: %s'
-                % (c['fn'], c['bshape'], c['dim'], type(e).__name__, str(e)[:200]))
+        return (KEY_HIST, 'a step of the history around pp.%s(tensor%s of 2x2 matrices, dim=%d)%s raises %s: %s'
+                % (c['fn'], c['bshape'], c['dim'], ag_text(c.get('ag', 'off')), type(e).__name__, str(e)[:200]))
 
 
 def mat_exec_(pp, torch, c):
@@ -847,15 +882,19 @@ def mat_exec_(pp, torch, c):
     # relayout treats the last axis as the item: fold the matrix into one axis of 4 for the layout, view as 2x2
     view, buf, vf0 = relayout(torch, t.reshape(bsh + (4,)), c.get('layout', 'C'))
     vf = lambda b: vf0(b).unflatten(-1, (2, 2))
-    x = vf(buf)
+    ag = c.get('ag', 'off')
+    buf = ag_buffer(torch, buf, ag)
+    xg = vf(buf)                              # the input in its autograd state
+    x, buf = xg.detach(), buf.detach()        # the same memory
     x0, buf0 = x.clone(), buf.clone()
-    call = 'pp.%s(tensor%s of 2x2 matrices, dim=%d, left=%s)' % (fn, list(bsh), dim, left)
+    call = 'pp.%s(tensor%s of 2x2 matrices, dim=%d, left=%s)%s' % (fn, list(bsh), dim, left, ag_text(ag))
     try:
-        y = getattr(pp, fn)(x, dim, left=left)
+        y = getattr(pp, fn)(xg, dim, left=left)
     except Exception as e:
         return (KEY_FOLD, '%s raises %s: %s' % (call, type(e).__name__, str(e)[:200]))
-    if tuple(y.shape) != bsh + (2, 2):
-        return (KEY_FOLD, '%s has shape %s' % (call, list(y.shape)))
+    if not torch.is_tensor(y) or tuple(y.shape) != bsh + (2, 2):
+        return (KEY_FOLD, '%s has shape %s' % (call, list(getattr(y, 'shape', []))))
+    y = y.detach()
     got = [[int(v) for v in row] for row in y.reshape(-1, 4).tolist()]
     for f in range(len(rows)):
         if got[f] != exp[f]:
